@@ -6614,12 +6614,34 @@ tsk_tree_clear(tsk_tree_t *self)
 {
     int ret = 0;
     tsk_size_t j;
-    tsk_id_t u;
+    tsk_id_t u, v;
     const tsk_size_t N = self->num_nodes + 1;
     const tsk_size_t num_samples = self->tree_sequence->num_samples;
     const bool sample_counts = !(self->options & TSK_NO_SAMPLE_COUNTS);
     const bool sample_lists = !!(self->options & TSK_SAMPLE_LISTS);
     const tsk_flags_t *flags = self->tree_sequence->tables->nodes.flags;
+    tsk_size_t *own_tracked = NULL;
+
+    if (sample_counts && self->num_edges > 0) {
+        /* A sample node that has children in the current tree counts their
+         * tracked samples as well as its own. Work out each sample's own
+         * contribution while the tree structure is still available. */
+        own_tracked = tsk_malloc(num_samples * sizeof(*own_tracked));
+        if (own_tracked == NULL) {
+            ret = tsk_trace_error(TSK_ERR_NO_MEMORY);
+            goto out;
+        }
+        for (j = 0; j < num_samples; j++) {
+            u = self->samples[j];
+            own_tracked[j] = self->num_tracked_samples[u];
+            for (v = self->left_child[u]; v != TSK_NULL; v = self->right_sib[v]) {
+                own_tracked[j] -= self->num_tracked_samples[v];
+            }
+        }
+        for (j = 0; j < num_samples; j++) {
+            self->num_tracked_samples[self->samples[j]] = own_tracked[j];
+        }
+    }
 
     self->interval.left = 0;
     self->interval.right = 0;
@@ -6675,6 +6697,8 @@ tsk_tree_clear(tsk_tree_t *self)
             }
         }
     }
+out:
+    tsk_safe_free(own_tracked);
     return ret;
 }
 
